@@ -3,6 +3,8 @@ package main
 // Contract expressions -> SMT terms in a typed environment.
 
 import (
+	"sort"
+	"regexp"
 	"fmt"
 	"go/constant"
 	"go/token"
@@ -31,6 +33,7 @@ type SpecCtx struct {
 	atLoop   *ssa.BasicBlock
 	calleeFn *ssa.Function
 	depth    int
+	noRecEnv bool // applications under a parameter environment (lemma templates) do not name a real state
 	pos      token.Pos // source position the expression is evaluated at (scoping of local names); NoPos = end of function
 }
 
@@ -397,7 +400,7 @@ func (sc *SpecCtx) evalIdent(name string) (Val, error) {
 		}
 		sv := "GG$" + name
 		vc.svar(sv, srt, ty)
-		return Val{Ty: ty, Sort: srt, LV: &LVal{kind: lvGlobal, sv: sv, typ: ty}}, nil
+		return Val{Ty: ty, Sort: srt, LV: &LVal{kind: lvGlobal, sv: sv, typ: ty, gsort: srt}}, nil
 	}
 	if sc.atLoop != nil || sc.fr != nil {
 		if v, ok := sc.lookupLocal(name); ok {
@@ -433,6 +436,10 @@ func (sc *SpecCtx) evalIdent(name string) (Val, error) {
 				return Val{Pkg: pk.Types, Sort: "Pkg"}, nil
 			}
 		}
+	}
+	// a standard-library package named by its (single-element) path: io, os, ...
+	if sp, ok := vc.p.spkgs[name]; ok && sp.Pkg != nil && sp.Pkg.Name() == name {
+		return Val{Pkg: sp.Pkg, Sort: "Pkg"}, nil
 	}
 	if o := types.Universe.Lookup(name); o != nil {
 		if c, ok := o.(*types.Const); ok {
@@ -954,6 +961,28 @@ func (sc *SpecCtx) evalCall(e *ECall) (Val, error) {
 			}
 		}
 		return Val{T: app("i.val", sc.term(v)), Ty: ty, Sort: "Int"}, nil
+	case "crc32", "xxhash":
+		v, err := sc.eval(e.Args[0])
+		if err != nil {
+			return Val{}, err
+		}
+		fn, ty := "crc32_", types.Typ[types.Uint32]
+		if e.Fun == "xxhash" {
+			fn, ty = "xxhash_", types.Typ[types.Uint64]
+		}
+		vc.declareFun(fn, []string{"Int"}, "Int")
+		return Val{T: app(fn, sc.term(v)), Ty: ty}, nil
+	case "bcat":
+		a, err := sc.eval(e.Args[0])
+		if err != nil {
+			return Val{}, err
+		}
+		b, err := sc.eval(e.Args[1])
+		if err != nil {
+			return Val{}, err
+		}
+		vc.declareFun("bcat_", []string{"Int", "Int"}, "Int")
+		return Val{T: app("bcat_", sc.term(a), sc.term(b)), Ty: types.Typ[types.String], Sort: "Int"}, nil
 	case "float":
 		v, err := sc.eval(e.Args[0])
 		if err != nil {
@@ -995,6 +1024,9 @@ func (sc *SpecCtx) expandPure(pf *PureFunc, e *ECall) (Val, error) {
 	args, err := sc.evalArgs(e.Args)
 	if err != nil {
 		return Val{}, err
+	}
+	if pf.Rec {
+		return sc.applyRec(pf, args)
 	}
 	c := *sc
 	c.depth++
@@ -1097,4 +1129,283 @@ func (sc *SpecCtx) mapNameOf(s string) ([]string, error) {
 		return allLeafMaps(sc.vc.srt, st, st, nil), nil
 	}
 	return []string{"H$" + typeName(st) + "$" + f}, nil
+}
+
+// ---------------------------------------------------------------- recursive spec functions
+
+// recDef: a recursive spec function emitted as define-fun-rec.  The state variables its body reads are implicit leading
+// parameters (the function is a function of the heap it is evaluated in).
+type recDef struct {
+	name      string
+	stateVars []string // names of the state variables, in parameter order
+	building  bool
+	body      string   // body with the state abstracted (st$<name>), parameters rp$<fn>$<p>, recursive calls RECCALL$<fn>
+	pbind     []string // parameter binders
+	rsort     string
+}
+
+var smtTokRe = regexp.MustCompile(`\|[^|]*\||[^\s()]+`)
+
+func replaceTokens(term string, m map[string]string) string {
+	return smtTokRe.ReplaceAllStringFunc(term, func(t string) string {
+		if r, ok := m[t]; ok {
+			return r
+		}
+		return t
+	})
+}
+
+// paramEnv: an environment in which every state variable is at a dedicated fresh version (so that occurrences of the
+// state in a term evaluated under it can be found and abstracted).
+func (vc *VC) paramEnv() Env {
+	env := Env{}
+	var names []string
+	for k := range vc.svars {
+		names = append(names, k)
+	}
+	sort.Strings(names)
+	for _, k := range names {
+		vc.bump(env, k)
+	}
+	return env
+}
+
+// abstractState: replaces the state-variable versions of env occurring in term by bound names; returns the binders.
+func (vc *VC) abstractState(term string, env Env, only []string) (string, []string, []string) {
+	var names []string
+	if only != nil {
+		names = only
+	} else {
+		for k := range env {
+			names = append(names, k)
+		}
+		sort.Strings(names)
+	}
+	toks := map[string]bool{}
+	for _, t := range smtTokRe.FindAllString(term, -1) {
+		toks[t] = true
+	}
+	m := map[string]string{}
+	var used, binders []string
+	for _, k := range names {
+		vn := verName(k, env[k])
+		if only == nil && !toks[vn] {
+			continue
+		}
+		b := smtName("st$" + k)
+		m[vn] = b
+		used = append(used, k)
+		binders = append(binders, fmt.Sprintf("(%s %s)", b, vc.svars[k].Sort))
+	}
+	return replaceTokens(term, m), used, binders
+}
+
+func (sc *SpecCtx) evalRecBody(pf *PureFunc, env Env) (string, string, []string, error) {
+	vc := sc.vc
+	c := *sc
+	c.depth = 0
+	if pk, ok := vc.p.pkgs[pf.Pkg]; ok && pk.Types != nil {
+		c.pkg = pk.Types
+	}
+	c.names = map[string]Val{}
+	var pbind []string
+	for _, p := range pf.Params {
+		ty, srt, err := c.resolveType(p.Type)
+		if err != nil {
+			return "", "", nil, err
+		}
+		sym := smtName("rp$" + pf.Name + "$" + p.Name)
+		c.names[p.Name] = Val{T: sym, Ty: ty, Sort: srt}
+		pbind = append(pbind, fmt.Sprintf("(%s %s)", sym, srt))
+	}
+	c.atLoop = nil
+	c.node = vc.newNode("recdef "+pf.Name, env)
+	c.env, c.old = c.node.env, c.node.env
+	c.fr = &Frame{fn: nil, lvs: map[ssa.Value]*LVal{}, regs: map[ssa.Value]string{}, entryEnv: env, checkedNil: map[string]bool{}, allocFresh: map[string]bool{}}
+	if sc.fr != nil {
+		c.fr.fn, c.fr.prefix = sc.fr.fn, sc.fr.prefix
+	}
+	v, err := c.eval(pf.Body)
+	if err != nil {
+		return "", "", nil, fmt.Errorf("in %s: %v", pf.Name, err)
+	}
+	_, rs, _ := c.resolveType(pf.Result)
+	return c.term(v), rs, pbind, nil
+}
+
+func (sc *SpecCtx) applyRec(pf *PureFunc, args []Val) (Val, error) {
+	vc := sc.vc
+	if vc.recDefs == nil {
+		vc.recDefs = map[string]*recDef{}
+	}
+	var terms []string
+	for i, a := range args {
+		t := sc.term(a)
+		if a.Sort == "Nil" {
+			ty, _, _ := sc.resolveType(pf.Params[i].Type)
+			t = vc.srt.zeroOf(ty)
+		}
+		terms = append(terms, t)
+	}
+	rty, rs, err := sc.resolveType(pf.Result)
+	if err != nil {
+		return Val{}, err
+	}
+	rd := vc.recDefs[pf.Name]
+	if rd == nil {
+		rd = &recDef{name: pf.Name, building: true}
+		vc.recDefs[pf.Name] = rd
+		// first evaluation creates the state variables the body needs; the second one runs under a parameter environment
+		if _, _, _, err := sc.evalRecBody(pf, Env{}); err != nil {
+			return Val{}, err
+		}
+		penv := vc.paramEnv()
+		body, _, pbind, err := sc.evalRecBody(pf, penv)
+		if err != nil {
+			return Val{}, err
+		}
+		body, used, sbind := vc.abstractState(body, penv, nil)
+		rd.stateVars = used
+		rd.body, rd.pbind, rd.rsort = body, pbind, rs
+		// uninterpreted at three fuel levels (all denote the same function); the definition is given by axioms that
+		// unfold level k into level k-1 (see finalizeRec): every ground application is unfolded at most twice
+		var sorts []string
+		for _, b := range sbind {
+			sorts = append(sorts, b[strings.Index(b, " ")+1:len(b)-1])
+		}
+		for _, b := range pbind {
+			sorts = append(sorts, b[strings.Index(b, " ")+1:len(b)-1])
+		}
+		for k := 0; k <= 2; k++ {
+			vc.declareFun(fmt.Sprintf("rf$%s$%d", pf.Name, k), sorts, rs)
+		}
+		rd.building = false
+		vc.used["recursive spec function (definitional axioms, unfolded twice per application): "+pf.Name] = true
+		vc.lemmasFor(sc, pf.Name)
+	}
+	if rd.building {
+		return Val{T: app("RECCALL$"+pf.Name, append([]string{"STATE$" + pf.Name}, terms...)...), Ty: rty, Sort: rs}, nil
+	}
+	var st []string
+	for _, k := range rd.stateVars {
+		st = append(st, vc.cur(sc.env, k))
+	}
+	// remember the state this application reads: definitions and lemmas are instantiated for exactly these states
+	if !sc.noRecEnv {
+		vc.recEnvs = append(vc.recEnvs, sc.env.clone())
+	}
+	return Val{T: app(smtName(fmt.Sprintf("rf$%s$2", pf.Name)), append(st, terms...)...), Ty: rty, Sort: rs}, nil
+}
+
+// lemmasFor: every lemma (proved separately: checkLemmas) that mentions the recursive function becomes an axiom of this
+// VC, universally quantified over the state it reads.
+func (vc *VC) lemmasFor(sc *SpecCtx, fn string) {
+	for _, l := range vc.p.lemmas {
+		if l == vc.lemmaProving {
+			break // the proof of a lemma may use only lemmas declared before it
+		}
+		if !strings.Contains(l.Text, fn+"(") || vc.lemmaUsed[l] {
+			continue
+		}
+		// opt-in: only the lemmas named by the root function's `uses` clause (a lemma nobody needs costs solver time)
+		wanted := false
+		if vc.rootFr != nil && vc.rootFr.fc != nil {
+			for _, u := range vc.rootFr.fc.Uses {
+				if u == l.Name {
+					wanted = true
+				}
+			}
+		}
+		if !wanted {
+			continue
+		}
+		if vc.lemmaUsed == nil {
+			vc.lemmaUsed = map[*Lemma]bool{}
+		}
+		vc.lemmaUsed[l] = true
+		penv := vc.paramEnv()
+		c := *sc
+		c.names = map[string]Val{}
+		c.atLoop = nil
+		c.node = vc.newNode("lemma "+l.Name, penv)
+		c.env, c.old = c.node.env, c.node.env
+		c.noRecEnv = true
+		if pk, ok := vc.p.pkgs[l.Pkg]; ok && pk.Types != nil {
+			c.pkg = pk.Types
+		}
+		c.fr = &Frame{fn: nil, lvs: map[ssa.Value]*LVal{}, regs: map[ssa.Value]string{}, entryEnv: penv, checkedNil: map[string]bool{}, allocFresh: map[string]bool{}}
+		f, err := c.formula(l.E)
+		if err != nil {
+			vc.specErrs = append(vc.specErrs, fmt.Sprintf("lemma %s: %v", l.Name, err))
+			continue
+		}
+		// new state variables may have been created by the lemma: they are at version 0 there, abstract those too
+		for k := range vc.svars {
+			if _, ok := penv[k]; !ok {
+				penv[k] = 0
+			}
+		}
+		f, used, _ := vc.abstractState(f, penv, nil)
+		vc.lemmaForms = append(vc.lemmaForms, lemmaForm{f, used})
+		kind := "lemma"
+		if l.Axiom {
+			kind = "axiom (assumed)"
+		}
+		vc.used[kind+": "+l.Name] = true
+	}
+}
+
+type lemmaForm struct {
+	f    string   // lemma formula with the state it reads abstracted to st$<name> symbols
+	used []string // those state variables
+}
+
+// instantiateLemmas: the definitional axioms of the recursive spec functions and the lemmas in use are instantiated for
+// every state in which a recursive spec function is applied in this VC (an axiom quantified over the state arrays
+// themselves defeats every solver's instantiation heuristics).
+func (vc *VC) instantiateLemmas() {
+	seen := map[string]bool{}
+	add := func(a string) {
+		if !seen[a] {
+			seen[a] = true
+			vc.addAxiom(a)
+		}
+	}
+	var names []string
+	for k := range vc.recDefs {
+		names = append(names, k)
+	}
+	sort.Strings(names)
+	for _, env := range vc.recEnvs {
+		for _, nm := range names {
+			rd := vc.recDefs[nm]
+			m := map[string]string{}
+			var st []string
+			for _, k := range rd.stateVars {
+				m[smtName("st$"+k)] = verName(k, env[k])
+				st = append(st, verName(k, env[k]))
+			}
+			var ps []string
+			for _, b := range rd.pbind {
+				ps = append(ps, b[1:strings.Index(b, " ")])
+			}
+			for k := 2; k >= 1; k-- {
+				fk := smtName(fmt.Sprintf("rf$%s$%d", nm, k))
+				fk1 := smtName(fmt.Sprintf("rf$%s$%d", nm, k-1))
+				m["RECCALL$"+nm] = fk1
+				m["STATE$"+nm] = strings.Join(st, " ")
+				body := replaceTokens(rd.body, m)
+				appK := app(fk, append(append([]string{}, st...), ps...)...)
+				appK1 := app(fk1, append(append([]string{}, st...), ps...)...)
+				add(fmt.Sprintf("(forall (%s) (! (and (= %s %s) (= %s %s)) :pattern (%s)))", strings.Join(rd.pbind, " "), appK, body, appK, appK1, appK))
+			}
+		}
+		for _, lf := range vc.lemmaForms {
+			m := map[string]string{}
+			for _, k := range lf.used {
+				m[smtName("st$"+k)] = verName(k, env[k])
+			}
+			add(replaceTokens(lf.f, m))
+		}
+	}
 }
